@@ -184,6 +184,10 @@ func genC06(rng *rand.Rand, n int, tier string, emit func(*Sx)) {
 	for _, t := range []string{"/" + long, "/" + long + "/x", "/{" + long + "}", "/{a: /" + long + "/}", "/x" + long + "{b}", "/{" + long + ": **}"} {
 		one(t)
 	}
+	// the names and values the short forms are made of, spelled out as parameters
+	for _, t := range []string{"/{**: **}", "/{**:**}", "/a/{**: **}/b", "/{**: **, capture: 2}", "/{**: **, **: **}", "/{x: **}", "/{**: x}", "/{**}", "/{**: /**/}", "/{capture: **}", "/{**: capture}", "/?{**: **}"} {
+		one(t)
+	}
 	for i := 0; i < n; i++ {
 		d := genDerivation(rng)
 		switch rng.Intn(5) {
